@@ -371,6 +371,9 @@ func init() {
 			"((draw a (i 0 1000)) (if (ge a 500) (error 1)) (if (lt a 500) (error 3)))",
 			"((draw a (slice (i 0 100) 0 8)) (if (lenge a 3) (error 1)) (if (lenlt a 3) (error 2)))",
 			"((draw a (u 0 18446744073709551615)) (draw b (bool)) (if (ge a 1000) (error 4)) (if (lt a 1000) (error 5)) (cleanup (emit 40)))",
+			// a panic whose value depends on the drawn data: the report must name the value of the minimized case
+			"((draw a (slice (i 0 1000) 0 6)) (draw b (i 0 100000)) (if (ge b 1000) (panicv 1 b)))",
+			"((draw b (u 0 18446744073709551615)) (draw c (bool)) (if (ge b 77) (panicv 2 b)))",
 		}
 		for i := 0; i < 60*scale; i++ {
 			var prog *SX
